@@ -66,7 +66,8 @@ COMPONENTS = {
 ASSUMPTIONS = [
     "pre-emption is line-granular inside _sticky.py plus every lock operation; user code (method body, state.close()) yields only at "
     "its explicit yield points: reported interleavings are realisable with real threads, not every real one is explored",
-    "a request's own ctx.close_session() is the end of its dispatch against that session (not 'close during dispatch')",
+    "a request's own ctx.close_session() is the end of its dispatch against that session (not 'close during dispatch'), but if "
+    "that call is the one that retires the session, no other request may enter dispatch between its start and the close hook",
     "shutdown() while requests are in flight is part of the quantifier (the property lists drain/shutdown)",
     "requests are unary (the per-session lock is released in process_response; streaming bodies are out of scope)",
 ]
@@ -247,6 +248,8 @@ def run(ctx: RunCtx) -> None:
 
     # ------------------------------------------------------------------ invariants over the event sequence
     active: dict[str, dict[int, str]] = {}
+    closing: dict[str, dict[int, str]] = {}  # requests between their "own-close" exit and the return of ctx.close_session()
+    entered_during_close: dict[str, list[tuple[int, int, str, str, int, str]]] = {}
     cstart: dict[str, list[tuple[int, str, str]]] = {}
     cend: dict[str, int] = {}
     seen: set[str] = set()
@@ -276,6 +279,11 @@ def run(ctx: RunCtx) -> None:
                 report("dispatch-after-close", f"closer={_short(c0[1])}",
                        f"request {tg} ({th}) entered dispatch on session {label} at event {seq}, after its close hook started at event "
                        f"{c0[0]} (called via {c0[1]} on thread {c0[2]}; hook {'still running' if during else 'finished'})")
+            for ctag, cth in closing.get(label, {}).items():
+                # another request is inside its own ctx.close_session() on this session.  That alone is legal (shutdown or an
+                # expiry may have taken the entry out first, so that call closes nothing and hands the lock on); it is a violation
+                # only if that very call then goes on to retire the session: it owned the close and let someone in before it
+                entered_during_close.setdefault(label, []).append((seq, tg, th, how, ctag, cth))
             if active.get(label):
                 other = next(iter(active[label].items()))
                 report("concurrent-dispatch", f"how={how}", f"request {tg} ({th}) entered dispatch on session {label} at event {seq} while "
@@ -283,6 +291,10 @@ def run(ctx: RunCtx) -> None:
             active.setdefault(label, {})[tg] = th
         elif kind == "exit":
             active.get(e[2], {}).pop(e[3], None)
+            if e[4] == "own-close":
+                closing.setdefault(e[2], {})[e[3]] = e[5]
+        elif kind == "own-close-done":
+            closing.get(e[2], {}).pop(e[3], None)
         elif kind == "close-start":
             label, chain, th = e[2], e[3], e[4]
             if label in cstart:
@@ -290,6 +302,14 @@ def run(ctx: RunCtx) -> None:
                        f"close hook of session {label} ran again at event {seq} (via {chain}); first at event {cstart[label][0][0]} "
                        f"(via {cstart[label][0][1]})")
             cstart.setdefault(label, []).append((seq, chain, th))
+            if "_close_session" in chain.split(">"):
+                for eseq, tg, t2, how, ctag, cth in entered_during_close.get(label, []):
+                    if cth == th and closing.get(label, {}).get(ctag) == th:
+                        ch.probe("enter-during-own-close")
+                        report("concurrent-dispatch", f"how={how},during-own-close",
+                               f"request {tg} ({t2}) entered dispatch on session {label} at event {eseq} while request {ctag} ({cth}), "
+                               f"which had been dispatching on it, was inside its own ctx.close_session(), and that call then retired "
+                               f"the session at event {seq}: the session lock was given up before the session was retired")
             others = {tg: t2 for tg, t2 in active.get(label, {}).items()}
             if others:
                 tg, t2 = next(iter(others.items()))
